@@ -24,6 +24,9 @@ var (
 	vgSlice2 []int
 )
 
+// vK08: history length (3 in the quick tier; the thorough wrappers VC_C08x_* set 5)
+var vK08 = 3
+
 var vC08Ops = [5]string{"op0", "op1", "op2", "op3", "op4"}
 
 // vVarHistory drives one variable through K operations chosen from Set(v1), Set(v2),
@@ -83,20 +86,20 @@ func VC_C08_int() {
 	v0, v1, v2, v3 := verifInt("v0"), verifInt("v1"), verifInt("v2"), verifInt("v3")
 	vgInt = v0
 	vals := [4]interface{}{v0, v1, v2, v3}
-	vVarHistory(3, &vgInt, vals, func() int { return v3 }, func(i int) bool { return vgInt == vals[i].(int) }, "C08.int")
+	vVarHistory(vK08, &vgInt, vals, func() int { return v3 }, func(i int) bool { return vgInt == vals[i].(int) }, "C08.int")
 }
 
 func VC_C08_string() {
 	vgStr = "orig"
 	vals := [4]interface{}{"orig", "m1", "m2", "m3"}
-	vVarHistory(3, &vgStr, vals, func() string { return "m3" }, func(i int) bool { return vgStr == vals[i].(string) }, "C08.string")
+	vVarHistory(vK08, &vgStr, vals, func() string { return "m3" }, func(i int) bool { return vgStr == vals[i].(string) }, "C08.string")
 }
 
 func VC_C08_struct() {
 	a0, a1 := verifInt("a0"), verifInt("a1")
 	vgCfg = vCfg{A: a0, B: "svc"}
 	vals := [4]interface{}{vCfg{a0, "svc"}, vCfg{a1, "m1"}, vCfg{2, "m2"}, vCfg{3, "m3"}}
-	vVarHistory(3, &vgCfg, vals, func() vCfg { return vCfg{3, "m3"} }, func(i int) bool { return vgCfg == vals[i].(vCfg) }, "C08.struct")
+	vVarHistory(vK08, &vgCfg, vals, func() vCfg { return vCfg{3, "m3"} }, func(i int) bool { return vgCfg == vals[i].(vCfg) }, "C08.struct")
 }
 
 func VC_C08_ptr() {
@@ -108,7 +111,7 @@ func VC_C08_ptr() {
 	}
 	vgPtr = ps[0]
 	vals := [4]interface{}{ps[0], ps[1], ps[2], ps[3]}
-	vVarHistory(3, &vgPtr, vals, func() *int { return ps[3] }, func(i int) bool { return vgPtr == ps[i] }, "C08.ptr")
+	vVarHistory(vK08, &vgPtr, vals, func() *int { return ps[3] }, func(i int) bool { return vgPtr == ps[i] }, "C08.ptr")
 }
 
 func VC_C08_error() {
@@ -120,7 +123,7 @@ func VC_C08_error() {
 	vgErr = e0
 	es := [4]error{e0, e1, e2, e3}
 	vals := [4]interface{}{e0, e1, e2, e3}
-	vVarHistory(3, &vgErr, vals, func() error { return e3 }, func(i int) bool { return vgErr == es[i] }, "C08.error")
+	vVarHistory(vK08, &vgErr, vals, func() error { return e3 }, func(i int) bool { return vgErr == es[i] }, "C08.error")
 }
 
 func VC_C08_map() {
@@ -130,7 +133,7 @@ func VC_C08_map() {
 	}
 	vgMap = m0
 	vals := [4]interface{}{m0, m1, m2, m3}
-	vVarHistory(3, &vgMap, vals, func() map[string]int { return m3 }, func(i int) bool {
+	vVarHistory(vK08, &vgMap, vals, func() map[string]int { return m3 }, func(i int) bool {
 		want := vals[i].(map[string]int)
 		return (vgMap == nil) == (want == nil) && vgMap["a"] == want["a"] && len(vgMap) == len(want)
 	}, "C08.map")
@@ -187,7 +190,7 @@ func VC_C08_slice() {
 	}
 	vgSlice = s0
 	vals := [4]interface{}{s0, s1, s2, s3}
-	vVarHistory(3, &vgSlice, vals, func() []int { return s3 }, func(i int) bool {
+	vVarHistory(vK08, &vgSlice, vals, func() []int { return s3 }, func(i int) bool {
 		want := vals[i].([]int)
 		if (vgSlice == nil) != (want == nil) || len(vgSlice) != len(want) {
 			return false
@@ -211,7 +214,7 @@ func VC_C08_func() {
 	vgFunc = fs[0]
 	vals := [4]interface{}{fs[0], fs[1], fs[2], fs[3]}
 	x := verifInt("x")
-	vVarHistory(3, &vgFunc, vals, func() func(int) int { return vC08F3 }, func(i int) bool {
+	vVarHistory(vK08, &vgFunc, vals, func() func(int) int { return vC08F3 }, func(i int) bool {
 		if fs[i] == nil || vgFunc == nil {
 			return (fs[i] == nil) == (vgFunc == nil)
 		}
@@ -262,3 +265,13 @@ func VC_C08_unexported_by_name() {
 	verifAssert(vgUnexp == v0, "C08.byname.final-reset-restores")
 	verifReached("C08.byname")
 }
+
+// thorough tier: the same histories with five operations
+func VC_C08x_int()    { vK08 = 5; VC_C08_int() }
+func VC_C08x_string() { vK08 = 5; VC_C08_string() }
+func VC_C08x_struct() { vK08 = 5; VC_C08_struct() }
+func VC_C08x_ptr()    { vK08 = 5; VC_C08_ptr() }
+func VC_C08x_error()  { vK08 = 5; VC_C08_error() }
+func VC_C08x_map()    { vK08 = 5; VC_C08_map() }
+func VC_C08x_slice()  { vK08 = 5; VC_C08_slice() }
+func VC_C08x_func()   { vK08 = 5; VC_C08_func() }
